@@ -43,14 +43,14 @@ ANCHORS = [
     ('pjrpc/common/generators.py', 'random'),
 ]
 NOTATIONS_SINGLE = ['call', 'dunder-call', 'proxy', 'send', 'notify']
-NOTATIONS_BATCH = ['add', 'chain', 'getitem', 'batch-proxy', 'hand-built', 'hand-built-lenient', 'hand-built-extended']
+NOTATIONS_BATCH = ['add', 'chain', 'getitem', 'batch-proxy', 'batch-proxy-dunder-call', 'hand-built', 'hand-built-lenient', 'hand-built-extended']
 FLOORS = {'*': {'server:application-json-encoder': 50, 'client:logging-tracer-attached': 300,
                 **{f'notation:{n}:{k}': 20 for n in NOTATIONS_SINGLE + NOTATIONS_BATCH for k in ('sync', 'async')},
                 'error-base:get_error_cls-hook': 300,
                 'all-notification-batch:sync': 5, 'all-notification-batch:async': 5, 'idgen:sequential': 100,
                 'idgen:randint': 50, 'idgen:random': 50, 'idgen:uuid': 10, 'outcome:result': 200, 'outcome:typed-error': 20,
                 'outcome:unregistered-code': 20, 'outcome:server-error': 20, 'strict:off': 50, 'interchange:groups': 50,
-                'dispatcher:sync': 100, 'dispatcher:async': 100}}
+                'dispatcher:sync': 100, 'dispatcher:async': 100, **{f'backend:{b}': 60 for b in ('requests', 'httpx', 'httpx-async', 'aiohttp')}}}
 
 IDGENS = {
     'sequential': generators.sequential,
@@ -62,7 +62,7 @@ REG = {
     -32700: pjrpc.exceptions.ParseError, -32600: pjrpc.exceptions.InvalidRequestError,
     -32601: pjrpc.exceptions.MethodNotFoundError, -32602: pjrpc.exceptions.InvalidParamsError,
     -32603: pjrpc.exceptions.InternalError, -32000: pjrpc.exceptions.ServerError,
-    world.TYPED_CODE: world.ProbeTypedError,
+    world.TYPED_CODE: world.ProbeTypedError, world.STALE_CODE: world.ProbeStaleError,
 }
 
 
@@ -179,6 +179,91 @@ def make_client(is_async_client, w, idgen, strict, error_cls):
     return cls(transport, id_gen_impl=IDGENS[idgen], strict=strict, error_cls=error_cls, **kw)
 
 
+class PeerServer:
+    """a loop-back HTTP peer in a thread of this process: POST bodies go to the dispatcher of the probe world currently
+    attached, the answer travels back as the integration examples do it (200, JSON content type, empty body for nothing)"""
+
+    _instance = None
+
+    def __init__(self):
+        import http.server
+        import threading
+        outer = self
+        self.world = None
+        self.sent = []          # what arrived, in the shape of clientside.Wire.sent
+
+        class Handler(http.server.BaseHTTPRequestHandler):
+            protocol_version = 'HTTP/1.1'
+
+            def do_POST(self):
+                n = int(self.headers.get('Content-Length') or 0)
+                body = self.rfile.read(n).decode('utf-8')
+                outer.sent.append({'text': body, 'is_notification': None, 'kwargs': {'content_type': self.headers.get('Content-Type')}})
+                out = outer.world.dispatcher.dispatch(body)
+                payload = b'' if out is None else out[0].encode('utf-8')
+                self.send_response(200)
+                if payload:
+                    self.send_header('Content-Type', 'application/json')
+                self.send_header('Content-Length', str(len(payload)))
+                self.end_headers()
+                self.wfile.write(payload)
+
+            def log_message(self, *a):
+                pass
+
+        self.httpd = http.server.ThreadingHTTPServer(('127.0.0.1', 0), Handler)
+        self.url = f'http://127.0.0.1:{self.httpd.server_address[1]}/rpc'
+        threading.Thread(target=self.httpd.serve_forever, daemon=True).start()
+
+    def clear(self):
+        del self.sent[:]
+
+    @classmethod
+    def get(cls):
+        if cls._instance is None:
+            cls._instance = cls()
+        return cls._instance
+
+
+BACKENDS = ('requests', 'httpx', 'httpx-async', 'aiohttp')
+
+
+def make_backend_client(backend, w, idgen, strict, error_cls):
+    """one of the library's OWN client backends, talking HTTP to the loop-back peer (None if it cannot be imported here)"""
+    import importlib
+    peer = PeerServer.get()
+    peer.world = w
+    peer.clear()
+    kw = dict(id_gen_impl=IDGENS[idgen], strict=strict, error_cls=error_cls)
+    try:
+        if backend == 'requests':
+            client = importlib.import_module('pjrpc.client.backend.requests').Client(peer.url, **kw)
+        elif backend == 'httpx':
+            client = importlib.import_module('pjrpc.client.backend.httpx').Client(peer.url, **kw)
+        elif backend == 'httpx-async':
+            client = importlib.import_module('pjrpc.client.backend.httpx').AsyncClient(peer.url, **kw)
+        else:
+            mod = importlib.import_module('pjrpc.client.backend.aiohttp')
+
+            async def mk():
+                return mod.Client(peer.url, **kw)       # (the session wants to be created inside the loop it is used in)
+            client = world.run(mk())
+    except ImportError:
+        return None
+    client.wire = peer
+    return client
+
+
+def close_backend_client(backend, client):
+    try:
+        if backend in ('httpx-async', 'aiohttp'):
+            world.run(client.close())
+        else:
+            client.close()
+    except Exception:
+        pass
+
+
 def run_single(client, notation, call, is_async):
     method, how, payload = call[:3]
     args = tuple(payload) if how == 'args' else ()
@@ -223,6 +308,12 @@ def run_batch(client, notation, calls, is_async):
                 a, k = (tuple(p), {}) if how == 'args' else ((), dict(p))
                 pr = getattr(pr, m)(*a, **k)
             return pr.call()
+        if notation == 'batch-proxy-dunder-call':
+            pr = b.proxy
+            for m, how, p, notif in calls:
+                a, k = (tuple(p), {}) if how == 'args' else ((), dict(p))
+                pr = getattr(pr, m)(*a, **k)
+            return pr()                       # `client.batch.proxy.a(1).b(2)()`
         raise KeyError(notation)
     if notation == 'hand-built-extended':
         # one BatchRequest object sent, grown with extend(), and sent again: the second document holds everything
@@ -312,7 +403,7 @@ def judge_wire(sent, calls, single_notification=False):
                 return 'wire:params-not-as-given:' + how, doc
         elif 'params' in el and el['params'] not in ([], {}):
             return 'wire:params-invented', doc
-    if sent[0]['is_notification'] != all(c[3] for c in calls):
+    if sent[0]['is_notification'] is not None and sent[0]['is_notification'] != all(c[3] for c in calls):
         return 'wire:is_notification-flag-wrong', doc
     return None, doc
 
@@ -328,7 +419,9 @@ def strip_ids(doc):
     return doc
 
 
-def run_program(ctx, calls, notations, client_async, disp_async, idgen, strict, base, server_encoder=False):
+def run_program(ctx, calls, notations, client_async, disp_async, idgen, strict, base, server_encoder=False, backend=None):
+    if backend:
+        client_async, disp_async = backend in ('httpx-async', 'aiohttp'), False
     w = serverside.get_world(disp_async, None, **({'json_encoder': AppEncoder} if server_encoder else {}))
     if server_encoder:
         ctx.hit('server:application-json-encoder')
@@ -342,7 +435,14 @@ def run_program(ctx, calls, notations, client_async, disp_async, idgen, strict, 
     expectations = [expected_of(c) for c in calls]
     want_exec = serverside.normalise_calls([e for _, ex in expectations for e in ex])
     for notation in notations:
-        client = make_client(client_async, w, idgen, strict, error_cls)
+        if backend:
+            client = make_backend_client(backend, w, idgen, strict, error_cls)
+            if client is None:
+                ctx.skip(f'backend-not-importable:{backend}')
+                return
+            ctx.hit(f'backend:{backend}')
+        else:
+            client = make_client(client_async, w, idgen, strict, error_cls)
         client._vmon_reset = w.log.clear
         w.log.clear()
         cs = [list(c) + [False] if len(c) == 3 else list(c) for c in calls]
@@ -351,16 +451,18 @@ def run_program(ctx, calls, notations, client_async, disp_async, idgen, strict, 
             st, v = run_single(client, notation, cs[0], client_async)
         else:
             st, v = run_batch(client, notation, cs, client_async)
+        if backend:
+            close_backend_client(backend, client)
         got_exec = serverside.normalise_calls(w.log.calls)
-        cls = (json.dumps(calls, default=str), notation, ck, disp_async, idgen, strict, base)
-        fam = f'{notation}:{ck}'
+        cls = (json.dumps(calls, default=str), notation, ck, disp_async, idgen, strict, base, backend)
+        fam = f'{notation}:{ck}' + (f':backend-{backend}' if backend else '')
         ctx.hit(f'notation:{notation}:{ck}')
         ctx.hit('idgen:' + idgen)
         ctx.hit('dispatcher:' + ('async' if disp_async else 'sync'))
         if not strict:
             ctx.hit('strict:off')
         wit = dict(calls=cs, notation=notation, client=ck, dispatcher='async' if disp_async else 'sync', id_generator=idgen,
-                   strict=strict, error_cls=base, outcome=[st, v], wire=[s['text'] for s in client.wire.sent],
+                   strict=strict, error_cls=base, outcome=[st, v], wire=[s['text'] for s in client.wire.sent], backend=backend,
                    server_executions=w.log.calls)
         if w.log.ctor_failed:
             ctx.skip('probe-could-not-construct-protocol-error')
@@ -438,6 +540,18 @@ def run_program(ctx, calls, notations, client_async, disp_async, idgen, strict, 
                 ctx.ok(f'interchange:{role}:{ck}', (json.dumps(calls, default=str), role, ck, disp_async, idgen, strict))
 
 
+def _one_stale(calls):
+    """`stale` updates and raises ONE long-lived error object (state of the application's own): two of them in one batch alias
+    each other whatever the library does, so a batch holds at most one"""
+    seen = False
+    for c in calls:
+        if c[0] == 'stale':
+            if seen:
+                c[0:3] = ['ok', 'args', ['instead-of-a-second-stale']]
+            seen = True
+    return calls
+
+
 def gen(ctx):
     rng = ctx.rng
     deep = ctx.thorough
@@ -466,16 +580,27 @@ def gen(ctx):
         n = rng.randint(1, 4)
         positional_only = rng.random() < 0.5
         src = positional_ok if positional_only else pool
-        calls = [list(rng.choice(src)) + [False] for _ in range(n)]
+        calls = _one_stale([list(rng.choice(src)) + [False] for _ in range(n)])
         if positional_only:
-            notations = ['add', 'chain', 'getitem', 'batch-proxy', 'hand-built', 'hand-built-lenient', 'hand-built-extended']
+            notations = ['add', 'chain', 'getitem', 'batch-proxy', 'batch-proxy-dunder-call', 'hand-built', 'hand-built-lenient', 'hand-built-extended']
         else:
-            notations = ['add', 'chain', 'batch-proxy', 'hand-built', 'hand-built-lenient', 'hand-built-extended']
+            notations = ['add', 'chain', 'batch-proxy', 'batch-proxy-dunder-call', 'hand-built', 'hand-built-lenient', 'hand-built-extended']
         if rng.random() < 0.45:
             for c in calls:
                 c[3] = rng.random() < 0.5
             notations = ['add', 'chain', 'hand-built', 'hand-built-lenient']
         yield 'program', dict(calls=calls, notations=notations, **cfg())
+    # the library's own HTTP backends against a loop-back peer serving the probe world (same programs, same judgement)
+    for i in range(len(BACKENDS) * (400 if deep else 40)):
+        b = BACKENDS[i % len(BACKENDS)]
+        if i % 3 == 0:
+            c = pool[(i * 7) % len(pool)]
+            yield 'program', dict(calls=[c], notations=NOTATIONS_SINGLE, backend=b, **cfg())
+        else:
+            n = rng.randint(1, 3)
+            calls = _one_stale([list(rng.choice(positional_ok)) + [rng.random() < 0.3] for _ in range(n)])
+            yield 'program', dict(calls=calls, notations=['add', 'chain', 'hand-built', 'batch-proxy-dunder-call']
+                                  if not any(c_[3] for c_ in calls) else ['add', 'chain', 'hand-built'], backend=b, **cfg())
     # a dispatcher with an application encoder: results only that encoder can write, next to ordinary calls
     enc_calls = [['unenc', 'args', ['set']], ['unenc', 'kwargs', {'what': 'bytes'}], ['unenc', 'args', ['bytes']]]
     for rep_ in range(40 if full else 10):
@@ -492,7 +617,7 @@ def gen(ctx):
     # all-notification batches
     for n in (1, 2, 3, 4):
         for _ in range(8 if full else 3):
-            calls = [list(rng.choice(pool)) + [True] for _ in range(n)]
+            calls = _one_stale([list(rng.choice(pool)) + [True] for _ in range(n)])
             yield 'program', dict(calls=calls, notations=['add', 'chain', 'hand-built', 'hand-built-lenient'], **cfg())
 
 
